@@ -155,9 +155,21 @@ type recHost struct {
 }
 
 func (h *recHost) CreateConnection(ctx context.Context) types.CreateConnectionData {
-	if h.w.failNext {
+	if h.w.failNext || h.w.timeoutNext {
 		h.w.failedConnects++
-		return types.CreateConnectionData{Connection: network.NewClientConnection(500*time.Millisecond, nil, h.w.dead, nil), Host: h.Host}
+		var c types.ClientConnection
+		if h.w.timeoutNext {
+			// a dial that TIMES OUT: the connect timeout (what the cluster's connect_timeout configures) is 1 ns, so the
+			// dialer's deadline has passed before the connect is attempted (net.Dialer: "i/o timeout", Timeout() = true;
+			// 20000 of 20000 trials, nothing ever reaches the listener) => MOSN delivers api.ConnectTimeout.
+			c = network.NewClientConnection(time.Nanosecond, nil, h.w.up.ln.Addr(), nil)
+		} else {
+			c = network.NewClientConnection(500*time.Millisecond, nil, h.w.dead, nil)
+		}
+		d := &dialRec{}
+		c.AddConnectionEventListener(d)
+		h.w.lastDial = d
+		return types.CreateConnectionData{Connection: c, Host: h.Host}
 	}
 	d := h.Host.CreateConnection(ctx)
 	h.w.mu.Lock()
@@ -174,6 +186,29 @@ func (h *recHost) CreateConnection(ctx context.Context) types.CreateConnectionDa
 }
 
 // ---------------------------------------------------------------------------------------------------------------
+
+// dialRec records the events of a connection whose dial is made to fail (registered before the pool's listener).
+type dialRec struct {
+	mu  sync.Mutex
+	evs []api.ConnectionEvent
+}
+
+func (d *dialRec) OnEvent(e api.ConnectionEvent) {
+	d.mu.Lock()
+	d.evs = append(d.evs, e)
+	d.mu.Unlock()
+}
+
+func (d *dialRec) saw(e api.ConnectionEvent) bool {
+	d.mu.Lock()
+	defer d.mu.Unlock()
+	for _, x := range d.evs {
+		if x == e {
+			return true
+		}
+	}
+	return false
+}
 
 type mconn struct {
 	conn      types.ClientConnection
@@ -236,6 +271,8 @@ type world struct {
 	conns          []*mconn         // registered (index = creation order = upstream accept order)
 	streams        []*streamRec
 	failNext       bool
+	timeoutNext    bool     // the dial of the next CreateConnection times out
+	lastDial       *dialRec // events of the last connection whose dial was made to fail
 	failedConnects int
 	ext            int
 	timeouts       int
@@ -271,6 +308,9 @@ func newWorld(kind string, maxConn, maxReq uint32) *world {
 		codec := &ppCodec{}
 		w.pool = xstream.NewConnPool(ctx, codec, w.host)
 		w.proto = (&bolt.XCodec{}).NewXProtocol(ctx)
+	case "mx":
+		w.pool = xstream.NewConnPool(ctx, &mxCodec{}, w.host)
+		w.proto = (&bolt.XCodec{}).NewXProtocol(ctx)
 	default:
 		panic("kind")
 	}
@@ -278,8 +318,18 @@ func newWorld(kind string, maxConn, maxReq uint32) *world {
 }
 
 func (w *world) close() {
-	for _, m := range w.conns {
-		m.conn.Close(api.NoFlush, api.LocalClose)
+	// (guarded: closing a connection blocks for ever when a goroutine of MOSN is stuck holding one of its locks;
+	// that only happens on a broken tree, and the harness must still finish and report)
+	done := make(chan struct{})
+	go func() {
+		for _, m := range w.conns {
+			m.conn.Close(api.NoFlush, api.LocalClose)
+		}
+		close(done)
+	}()
+	select {
+	case <-done:
+	case <-time.After(3 * time.Second):
 	}
 	w.up.stop()
 }
@@ -390,6 +440,13 @@ func (w *world) reqResource() types.Resource {
 // newStream: pool.NewStream, and on success the request is sent at once (as the proxy does).
 func (w *world) newStream(connectFails bool) string { return w.newStreamOpt(connectFails, true) }
 
+// newStreamTimeout: pool.NewStream whose dial (if it makes one) ends in a connect TIMEOUT.
+func (w *world) newStreamTimeout() string {
+	w.timeoutNext = true
+	defer func() { w.timeoutNext = false }()
+	return w.newStreamOpt(false, true)
+}
+
 // newStreamOpt: with waitSent=false the harness does not wait until the upstream has received the request (the
 // connection's own goroutines may not even have been scheduled yet when the next operation hits).
 func (w *world) newStreamOpt(connectFails bool, waitSent bool) string {
@@ -399,12 +456,21 @@ func (w *world) newStreamOpt(connectFails bool, waitSent bool) string {
 	_, sender, reason := w.pool.NewStream(ctx, rec)
 	w.failNext = false
 	w.registerNew()
+	dial := w.lastDial
+	w.lastDial = nil
 	if reason != "" || sender == nil {
 		switch reason {
 		case types.Overflow:
 			return "ovf"
 		case types.ConnectionFailure:
-			return "cf"
+			// which failure it was is read off the event the connection delivered
+			switch {
+			case dial != nil && dial.saw(api.ConnectTimeout):
+				return "ct"
+			case dial != nil && dial.saw(api.ConnectFailed):
+				return "cf"
+			}
+			return "cf?"
 		}
 		return "fail"
 	}
@@ -480,7 +546,7 @@ func (w *world) response(si int, connClose bool) {
 		} else {
 			w.writeUp(s.conn, []byte("HTTP/1.1 200 OK\r\nContent-Length: 2\r\n\r\nok"))
 		}
-	case "pp":
+	case "pp", "mx":
 		w.writeUp(s.conn, w.ppResponse(s.sender.GetStream().ID()))
 	}
 	// the receiver wrapper destroys the stream first and calls OnReceive second: wait for the delivery itself
@@ -493,7 +559,7 @@ func (w *world) response(si int, connClose bool) {
 // garbage: the upstream answers stream si with bytes that are not a frame of the protocol.
 func (w *world) garbage(si int) {
 	s := w.streams[si]
-	if w.kind == "pp" {
+	if w.kind == "pp" || w.kind == "mx" {
 		// second byte = command type: not request / oneway / response => decode error
 		w.writeUp(s.conn, append([]byte{0x01, 0x7f}, make([]byte, 40)...))
 	} else {
